@@ -3,9 +3,18 @@
    bound is attempted (Sampler.run 422-445).  Log-likelihood values stay opaque ids; their ORDER is an oracle
    `vrank` (an order embedding of the float values, -inf lowest), so every comparison the code makes is exact here.
    The core state is untouched: everything proved about Shell2.step holds for the projection (Shell2CtlProofs.v). *)
-From Coq Require Import List Arith ZArith Bool.
+From Coq Require Import List Arith ZArith Bool Orders Sorting.Mergesort.
 Import ListNotations.
 Require Import NV.Base NV.Shell2.
+
+(* descending order on (rank, id) pairs, for the merge sort that finds the n_live-th largest value *)
+Module RankDesc <: TotalLeBool.
+  Definition t := (Z * vid)%type.
+  Definition leb (a b : t) : bool := Z.leb (fst b) (fst a).
+  Theorem leb_total : forall a b, leb a b = true \/ leb b a = true.
+  Proof. intros a b. unfold leb. destruct (Z.leb_spec (fst b) (fst a)); [now left|right]. apply Z.leb_le. apply Z.lt_le_incl. assumption. Qed.
+End RankDesc.
+Module RankSort := Sort RankDesc.
 
 Record ctlcfg := mkCC { cc_nlive : nat; cc_nupdate : Z; cc_nlikenew : nat; cc_npmin : nat }.
 Record cst := mkCst { core : st; lmins : list vid; nui : Z; nli : nat }.   (* shell_log_l_min, n_update_iter, n_like_iter *)
@@ -26,11 +35,12 @@ Definition all_lls (s : st) : list vid := concat (map lls (shells s)).
 Definition count_ge (r : Z) (l : list vid) : nat := length (filter (fun v => Z.leb r (vrank v)) l).
 Definition count_gt (r : Z) (l : list vid) : nat := length (filter (fun v => Z.ltb r (vrank v)) l).
 Definition count_eq (r : Z) (l : list vid) : nat := length (filter (fun v => Z.eqb r (vrank v)) l).
-(* the k-th largest rank: the largest r occurring in l with at least k values >= r *)
+(* the k-th largest value: entry k-1 of the values sorted by decreasing rank (np.sort(log_l)[-k]) *)
 Definition kth_largest (k : nat) (l : list vid) : option vid :=
-  fold_left (fun best v => if Nat.leb k (count_ge (vrank v) l)
-                           then match best with Some b => if Z.ltb (vrank b) (vrank v) then Some v else best | None => Some v end
-                           else best) l None.
+  match k with
+  | O => None
+  | S k' => option_map snd (nth_error (RankSort.sort (map (fun v => (vrank v, v)) l)) k')
+  end.
 Definition min_above (r : Z) (l : list vid) : option vid :=
   fold_left (fun best v => if Z.ltb r (vrank v)
                            then match best with Some b => if Z.ltb (vrank v) (vrank b) then Some v else best | None => Some v end
